@@ -56,7 +56,7 @@ def plan(tier, d0=None, dseed=None):
 
 
 def run_generic(pid, tier, seed, mon_factory, required_witness, rule, assumptions=(), d0=None, dseed=None,
-                extra_alph=None, extra_plan=(), heap=True):
+                extra_alph=None, extra_plan=(), heap=True, heap_ns=None):
     res = common.Result(pid, tier, seed)
     alph = dict(ALPH)
     if extra_alph:
@@ -73,7 +73,7 @@ def run_generic(pid, tier, seed, mon_factory, required_witness, rule, assumption
                          seed_books=sorted(set(x[0] for x in pl)))
     if heap:
         from .. import heap_stress
-        heap_stress.run(res, mon_factory, tier, seed)
+        heap_stress.run(res, mon_factory, tier, seed, ns=heap_ns)
     res.assumptions = list(assumptions) + [
         "operations are drawn from the stated finite alphabets; histories longer than the stated depth are not explored",
         "the market is driven through the same private interface the runner uses (_add_order, _cancel_order, _execution, _update_time, _is_running)",
